@@ -57,6 +57,7 @@ SPEC = {
  "C07": (["OxiddModel.Bdd.PropertiesC07"], [("c07", ["bdd", "bcdd", "zbdd"])]),
  "C08": (["OxiddModel.Reorder.Properties"], [("c08", ["bdd", "bcdd", "zbdd"])]),
  "C09": ([(Z, r"family|union|intsec|diff|subset|change|makeNode|bool_view|add_vars|taut|setops|const_nf")], [("c09", ["zbdd"])]),
+ "C12": (["OxiddModel.Bdd.PropertiesC12", (B, r"satcount"), (Z, r"satcount")], [("c12", ["bdd", "bcdd", "zbdd"])]),
  "C13": (["OxiddModel.Bdd.PropertiesC13", (B, r"pick|choice|literal"), (Z, r"pick")], [("c13", ["bdd", "bcdd", "zbdd"])]),
  "C14": (["OxiddModel.Bdd.PropertiesC14"], [("c14", ["bdd", "bcdd", "zbdd"])]),
 }
@@ -64,8 +65,10 @@ for pid, (mods, suites) in SPEC.items():
     p = os.path.join(ROOT, "checks", pid + ".json")
     cfg = json.load(open(p)) if os.path.exists(p) else {"property": pid, "level": "proof"}
     ms, ts = mods_theorems(mods)
-    cfg["lean_modules"] = ms
-    cfg["theorems"] = ts
+    keep_mods = [m for m in cfg.get("extra_lean_modules", [])]
+    keep_thms = [t for t in cfg.get("extra_theorems", [])]
+    cfg["lean_modules"] = ms + [m for m in keep_mods if m not in ms]
+    cfg["theorems"] = ts + [t for t in keep_thms if t not in ts]
     streams = []
     for suite, kinds in suites:
         streams += bf_streams(suite, kinds)
